@@ -240,6 +240,7 @@ type verifC08Net struct {
 	n        *threeHopNetwork
 	channels *clusterChannels
 	restore  func() (*clusterChannels, error)
+	tcs      [4]*testLightningChannel
 	mon      *verifC08Mon
 	delaySeed uint64
 	delayPct  int
@@ -282,12 +283,41 @@ func (v *verifC08Net) install(t *testing.T) {
 	n.carolServer.intersect(mk(2, "carol", func(m lnwire.Message) { v.mon.atEdge("C", m) }))
 }
 
+// verifC08Cluster is createClusterChannels keeping the per-channel restore
+// functions, so that a single channel can be reloaded while the links of the
+// other one keep running (reloading a channel whose link is live would read
+// its commit chain tip and pending updates in separate transactions).
+func verifC08Cluster(t *testing.T, capSat btcutil.Amount) (*clusterChannels, [4]*testLightningChannel, error) {
+	_, _, firstChanID, secondChanID := genIDs()
+	a, b1, err := createTestChannel(t, alicePrivKey, bobPrivKey, capSat, capSat, 0, 0, firstChanID)
+	if err != nil {
+		return nil, [4]*testLightningChannel{}, err
+	}
+	b2, c, err := createTestChannel(t, bobPrivKey, carolPrivKey, capSat, capSat, 0, 0, secondChanID)
+	if err != nil {
+		return nil, [4]*testLightningChannel{}, err
+	}
+	return &clusterChannels{aliceToBob: a.channel, bobToAlice: b1.channel,
+		bobToCarol: b2.channel, carolToBob: c.channel}, [4]*testLightningChannel{a, b1, b2, c}, nil
+}
+
 func verifC08Start(t *testing.T, vc *verifCtx, r *verifRng, capSat btcutil.Amount) (*verifC08Net, error) {
-	channels, restore, err := createClusterChannels(t, capSat, capSat)
+	channels, tcs, err := verifC08Cluster(t, capSat)
 	if err != nil {
 		return nil, err
 	}
-	v := &verifC08Net{channels: channels, restore: restore,
+	restore := func() (*clusterChannels, error) {
+		var out [4]*lnwallet.LightningChannel
+		for i, tc := range tcs {
+			ch, err := tc.restore()
+			if err != nil {
+				return nil, err
+			}
+			out[i] = ch
+		}
+		return &clusterChannels{aliceToBob: out[0], bobToAlice: out[1], bobToCarol: out[2], carolToBob: out[3]}, nil
+	}
+	v := &verifC08Net{channels: channels, restore: restore, tcs: tcs,
 		delaySeed: r.U64(), delayPct: []int{0, 10, 30}[r.Intn(3)]}
 	mon := &verifC08Mon{vc: vc,
 		chanAB:       lnwire.NewChanIDFromOutPoint(channels.aliceToBob.ChannelPoint()),
@@ -313,7 +343,7 @@ func verifC08Start(t *testing.T, vc *verifCtx, r *verifRng, capSat btcutil.Amoun
 		l.cfg.FwrdingPolicy.FeeRate = 1000
 	}
 	v.install(t)
-	if err := v.n.start(); err != nil {
+	if err := v.startNet(); err != nil {
 		return nil, err
 	}
 	return v, nil
@@ -348,7 +378,134 @@ func (v *verifC08Net) restart(t *testing.T) error {
 	}
 	v.n = n
 	v.install(t)
-	return n.start()
+	return v.startNet()
+}
+
+// flap emulates a disconnect/reconnect of ONE channel while all three
+// switches keep running: both links of the channel are removed from their
+// switches (in-flight messages of that channel are lost), the channel is
+// reloaded from disk on both sides and fresh links are added (which run
+// channel_reestablish for real).
+func (v *verifC08Net) flap(t *testing.T, ab bool) error {
+	n := v.n
+	chanID := v.mon.chanBC
+	if ab {
+		chanID = v.mon.chanAB
+	}
+	if ab {
+		n.bobServer.htlcSwitch.RemoveLink(chanID)
+		n.aliceServer.htlcSwitch.RemoveLink(chanID)
+	} else {
+		n.bobServer.htlcSwitch.RemoveLink(chanID)
+		n.carolServer.htlcSwitch.RemoveLink(chanID)
+	}
+	// Let the servers discard what was still queued for the removed
+	// links: a reconnect never delivers messages of the old connection.
+	// The monitor's connection epoch only advances once they are gone
+	// (they belong to the old connection).
+	deadline := time.Now().Add(20 * time.Second)
+	for time.Now().Before(deadline) {
+		if len(n.aliceServer.messages) == 0 && len(n.bobServer.messages) == 0 &&
+			len(n.carolServer.messages) == 0 {
+
+			break
+		}
+		time.Sleep(5 * time.Millisecond)
+	}
+	time.Sleep(30 * time.Millisecond)
+	v.mon.mu.Lock()
+	v.mon.epoch++
+	v.mon.logf("=== link flap ab=%v -> epoch %d", ab, v.mon.epoch)
+	v.mon.mu.Unlock()
+	restored := &clusterChannels{}
+	var err error
+	if ab {
+		if restored.aliceToBob, err = v.tcs[0].restore(); err != nil {
+			return fmt.Errorf("restore alice(A-B): %w", err)
+		}
+		if restored.bobToAlice, err = v.tcs[1].restore(); err != nil {
+			return fmt.Errorf("restore bob(A-B): %w", err)
+		}
+	} else {
+		if restored.bobToCarol, err = v.tcs[2].restore(); err != nil {
+			return fmt.Errorf("restore bob(B-C): %w", err)
+		}
+		if restored.carolToBob, err = v.tcs[3].restore(); err != nil {
+			return fmt.Errorf("restore carol(B-C): %w", err)
+		}
+	}
+	mk := func(server, peer *mockServer, ch *lnwallet.LightningChannel, bob bool) (*channelLink, error) {
+		l, err := n.createChannelLink(server, peer, ch, newMockIteratorDecoder())
+		if err != nil {
+			return nil, err
+		}
+		cl := l.(*channelLink)
+		if bob {
+			cl.cfg.FwrdingPolicy.FeeRate = 1000
+		}
+		return cl, nil
+	}
+	links := map[string]*channelLink{}
+	if ab {
+		a, err := mk(n.aliceServer, n.bobServer, restored.aliceToBob, false)
+		if err != nil {
+			return err
+		}
+		b, err := mk(n.bobServer, n.aliceServer, restored.bobToAlice, true)
+		if err != nil {
+			return err
+		}
+		n.aliceChannelLink, n.firstBobChannelLink = a, b
+		v.channels.aliceToBob, v.channels.bobToAlice = restored.aliceToBob, restored.bobToAlice
+		links["alice"], links["bob first"] = a, b
+	} else {
+		b, err := mk(n.bobServer, n.carolServer, restored.bobToCarol, true)
+		if err != nil {
+			return err
+		}
+		c, err := mk(n.carolServer, n.bobServer, restored.carolToBob, false)
+		if err != nil {
+			return err
+		}
+		n.secondBobChannelLink, n.carolChannelLink = b, c
+		v.channels.bobToCarol, v.channels.carolToBob = restored.bobToCarol, restored.carolToBob
+		links["bob second"], links["carol"] = b, c
+	}
+	return verifC08WaitEligible(links)
+}
+
+// verifC08WaitEligible is waitLinksEligible with a generous watchdog (the
+// fixture's 3 s are too short on a loaded machine).
+func verifC08WaitEligible(links map[string]*channelLink) error {
+	deadline := time.Now().Add(90 * time.Second)
+	for {
+		bad := ""
+		for name, l := range links {
+			if !l.EligibleToForward() {
+				bad = name
+			}
+		}
+		if bad == "" {
+			return nil
+		}
+		if time.Now().After(deadline) {
+			return fmt.Errorf("%s channel link not eligible after 90s", bad)
+		}
+		time.Sleep(10 * time.Millisecond)
+	}
+}
+
+func (v *verifC08Net) startNet() error {
+	n := v.n
+	for _, srv := range []*mockServer{n.aliceServer, n.bobServer, n.carolServer} {
+		if err := srv.Start(); err != nil {
+			return err
+		}
+	}
+	return verifC08WaitEligible(map[string]*channelLink{
+		"alice": n.aliceChannelLink, "bob first": n.firstBobChannelLink,
+		"bob second": n.secondBobChannelLink, "carol": n.carolChannelLink,
+	})
 }
 
 func (v *verifC08Net) server(name byte) *mockServer {
@@ -557,7 +714,8 @@ func verifC08Case(t *testing.T, vc *verifCtx, i int) {
 	if os.Getenv("VERIF_C08_NORESTART") != "" {
 		nRestarts = 0
 	}
-	vc.Case(i, map[string]any{"payments": nPay, "restarts": nRestarts})
+	nFlaps := []int{0, 0, 1, 2, 3}[r.Intn(5)]
+	vc.Case(i, map[string]any{"payments": nPay, "restarts": nRestarts, "flaps": nFlaps})
 	capSat := btcutil.Amount(btcutil.SatoshiPerBitcoin * 5)
 	v, err := verifC08Start(t, vc, r, capSat)
 	if err != nil {
@@ -590,6 +748,13 @@ func verifC08Case(t *testing.T, vc *verifCtx, i int) {
 		if w+1 < waves {
 			time.Sleep(time.Duration(r.Intn(40)) * time.Millisecond)
 		}
+	}
+	for fl := 0; fl < nFlaps; fl++ {
+		time.Sleep(time.Duration(r.Intn(120)) * time.Millisecond)
+		if err := v.flap(t, r.Bool()); err != nil {
+			t.Fatalf("flap: %v", err)
+		}
+		vc.Count("link_flaps", 1)
 	}
 	for rs := 0; rs < nRestarts; rs++ {
 		time.Sleep(time.Duration(r.Intn(250)) * time.Millisecond)
@@ -760,7 +925,7 @@ func verifC08Case(t *testing.T, vc *verifCtx, i int) {
 	for _, p := range pays {
 		kinds[p.Dir+p.Kind+p.outcome] = true
 	}
-	vc.Sig(fmt.Sprint(nRestarts, len(kinds), verifMin(okCount, 6), v.delayPct))
+	vc.Sig(fmt.Sprint(nRestarts, nFlaps, len(kinds), verifMin(okCount, 6), v.delayPct))
 	if i%10 == 0 {
 		vc.Sample(wit())
 	}
